@@ -198,6 +198,19 @@ theorem C18_stream_complete (c : Cfg) (s : State) (hr : Reachable c s) (hn : c.L
   rw [hlen, List.take_length] at this
   exact this
 
+/-- The server keeps no state across connections: an action of the server on connection `ci`
+    (read a record, a handler completes, write a response) changes nothing but that connection, and
+    whether it is enabled and what it does to the connection is a function of that connection alone.
+    (This is why several clients on one server do not interact: request ids only need to be distinct
+    per client; the model itself has one client.) -/
+theorem C18_mux_server_local (c : Cfg) (ci : Nat) (a : Act) (ha : a.server ci = true) :
+    (∀ s s', step c s a = some s' →
+      s'.pending = s.pending ∧ s'.active = s.active ∧ s'.results = s.results ∧ s'.reqs = s.reqs ∧
+      s'.tasks = s.tasks ∧ s'.sout = s.sout ∧ ∀ cj, cj ≠ ci → s'.conns[cj]? = s.conns[cj]?) ∧
+    (∀ s1 s2, s1.conns[ci]? = s2.conns[ci]? →
+      (step c s1 a).bind (fun s => s.conns[ci]?) = (step c s2 a).bind (fun s => s.conns[ci]?)) :=
+  ⟨fun s s' hs => server_local_effect c s s' a ci ha hs, fun s1 s2 h => server_local_cause c s1 s2 a ci ha h⟩
+
 /-- non-vacuity: two connections, four requests (one through `stream`), the handlers complete out
     of order (request 2 before request 0, request 1 answered first), id `100` is reused after its
     first owner was resolved; every future holds its own response.  Small buffer capacities. -/
